@@ -81,6 +81,68 @@ func c08Limits(c *Ctx) {
 					}
 					return false
 				}
+				// HttpBody: a unary upload is one message of `target` raw bytes; a streamed upload is cut
+				// into chunks none of which may exceed the limit
+				if ti < 5 {
+					raw := make([]byte, target)
+					c.Rng.Read(raw)
+					for _, zip := range []bool{false, true} {
+						hdr := map[string]string{"Content-Type": "application/octet-stream"}
+						body := raw
+						if zip {
+							hdr["Content-Encoding"] = "gzip"
+							body = gzipBytes(raw)
+						}
+						sfx.reset(nil)
+						rec, pn := sfx.serveStream("POST", "/c06/put/f", hdr, body, genSched(c, len(body)), c.Rng.Intn(2) == 0, false)
+						reached := false
+						for _, g := range sfx.got {
+							reached = reached || bytes.Equal(g, raw)
+						}
+						handlerRan := len(sfx.got) > 0
+						kind := "http-unary-httpbody"
+						if zip {
+							kind += "-gzip"
+						}
+						in := fmt.Sprintf("limit=%d raw=%d", limit, target)
+						c.Eval(kind, in, true)
+						switch {
+						case pn != nil:
+							c.SpecFail(kind, in, fmt.Sprint("panic: ", pn), "no panic", "C08/"+kind+"/panic", "panic")
+						case over && (handlerRan || rec.Code == 200):
+							c.SpecFail(kind, in, fmt.Sprintf("%d handler ran=%v with %d bytes", rec.Code, handlerRan, func() int {
+								if handlerRan {
+									return len(sfx.got[0])
+								}
+								return -1
+							}()), "an error, handler not reached", "C08/"+kind+"/over-limit-accepted", "an HttpBody upload over the receive limit does not fail (the handler runs / the request answers 200)")
+						case !over && (!reached || rec.Code != 200):
+							c.SpecFail(kind, in, fmt.Sprintf("%d reached=%v", rec.Code, reached), "delivered", "C08/"+kind+"/within-limit-refused", "an HttpBody upload within the limit is refused")
+						}
+					}
+					// streamed upload of 3*limit+7 bytes (+ carried bytes between reads)
+					big := make([]byte, 3*limit+7+ti)
+					c.Rng.Read(big)
+					sfx.reset(nil)
+					rec, pn := sfx.serveStream("POST", "/c06/upload/f", map[string]string{"Content-Type": "application/octet-stream"}, big, genSched(c, len(big)), c.Rng.Intn(2) == 0, false)
+					in := fmt.Sprintf("limit=%d upload=%d", limit, len(big))
+					c.Eval("http-stream-httpbody", in, true)
+					var all []byte
+					maxChunk := 0
+					for _, g := range sfx.got {
+						all = append(all, g...)
+						if len(g) > maxChunk {
+							maxChunk = len(g)
+						}
+					}
+					if pn != nil {
+						c.SpecFail("http-stream-httpbody", in, fmt.Sprint("panic: ", pn), "no panic", "C08/http-stream-httpbody/panic", "panic")
+					} else if maxChunk > limit {
+						c.SpecFail("http-stream-httpbody", in, fmt.Sprintf("a chunk of %d bytes", maxChunk), fmt.Sprintf("chunks of at most %d", limit), "C08/http-stream-httpbody/chunk-over-limit", "a streamed HttpBody chunk larger than the receive limit reaches the handler")
+					} else if rec.Code != 200 || !bytes.Equal(all, big) {
+						c.SpecFail("http-stream-httpbody", in, fmt.Sprintf("%d, %d of %d bytes", rec.Code, len(all), len(big)), "all bytes in chunks within the limit", "C08/http-stream-httpbody/bytes-lost", "a streamed upload within the per-chunk limit loses bytes or is refused")
+					}
+				}
 				// HTTP unary protobuf (readAll) — data with EOF and separately
 				for _, eofd := range []bool{false, true} {
 					sfx.reset([][]byte{nil})
